@@ -119,6 +119,11 @@ pub fn generate(
 
     let switch_method = generate_switch(&ctx, &rule_name_enum_name);
 
+    #[cfg(feature = "verif_hooks")]
+    for arm in &match_arms {
+        crate::verif_hooks::dump_code("arm", arm);
+    }
+
     let token_type = ctx.token_type();
 
     let error_type = match ctx.user_error_type() {
@@ -139,6 +144,14 @@ pub fn generate(
         generate_semantic_action_fns(&ctx, &user_state_lifetimes, &semantic_action_fn_ret_ty);
 
     let right_ctx_fns = generate_right_ctx_fns(&mut ctx, right_ctx_dfas);
+
+    #[cfg(feature = "verif_hooks")]
+    {
+        crate::verif_hooks::dump_code("actions", &semantic_action_fns);
+        for f in &right_ctx_fns {
+            crate::verif_hooks::dump_code("ctxfn", f);
+        }
+    }
 
     let search_tables = ctx.take_search_tables();
 
@@ -179,6 +192,16 @@ pub fn generate(
             )
         })
         .collect();
+
+    #[cfg(feature = "verif_hooks")]
+    {
+        for t in &search_tables {
+            crate::verif_hooks::dump_code("table", t);
+        }
+        crate::verif_hooks::dump_code("search", &binary_search_fn);
+        crate::verif_hooks::dump_code("switch", &switch_method);
+        crate::verif_hooks::end();
+    }
 
     let token_type = ctx.token_type();
 
@@ -319,6 +342,8 @@ fn generate_switch(ctx: &CgCtx, enum_name: &syn::Ident) -> TokenStream {
 
     for (rule_name, state_idx) in ctx.rule_states().iter() {
         let StateIdx(state_idx) = ctx.renumber_state(*state_idx);
+        #[cfg(feature = "verif_hooks")]
+        super::verif_dump::dump_switch_arm(rule_name, state_idx);
         let rule_ident = syn::Ident::new(rule_name, Span::call_site());
         arms.push(quote!(
             #enum_name::#rule_ident =>
@@ -354,6 +379,9 @@ fn generate_state_arms(
 
     let n_states = states.len();
 
+    #[cfg(feature = "verif_hooks")]
+    super::verif_dump::dump_inlined(n_states, ctx.inlined_states());
+
     for (state_idx, state) in states.iter().enumerate() {
         if state.predecessors.len() == 1 && !state.initial {
             continue;
@@ -361,12 +389,18 @@ fn generate_state_arms(
 
         let state_code: TokenStream = generate_state(ctx, state_idx, state, &states);
 
+        #[cfg(feature = "verif_hooks")]
+        let verif_orig_state_idx = state_idx;
+
         let StateIdx(state_idx) = ctx.renumber_state(StateIdx(state_idx));
         let state_idx_pat = if state_idx == n_states - ctx.n_inlined_states() - 1 {
             quote!(_)
         } else {
             quote!(#state_idx)
         };
+
+        #[cfg(feature = "verif_hooks")]
+        super::verif_dump::dump_arm(verif_orig_state_idx, &state_idx_pat);
 
         match_arms.push(quote!(
             #state_idx_pat => { #state_code }
